@@ -36,7 +36,7 @@ func gen(r *Rng, tier string, emit Emit) {
 	}
 	for it := 0; it < n; it++ {
 		rr := r.Fork(uint64(it))
-		o := uefigen.Opts{MaxDepth: rr.Pick(0, 0, 1, 2), Strings: true, Alignments: rr.Chance(2, 3), BigBodies: rr.Chance(1, 4)}
+		o := uefigen.Opts{MaxDepth: rr.Pick(0, 0, 1, 2), Strings: true, Alignments: rr.Chance(2, 3), BigBodies: rr.Chance(1, 4), LargeSecs: true}
 		reg := uefigen.GenRegion(rr, o)
 		img, _ := uefigen.EmitRegion(reg)
 		if len(img) > 24000 {
